@@ -62,16 +62,77 @@ proof fn lemma_char_offs_are_boundaries(cs: Seq<char>)
     }
 }
 
-/// ASSUMED (UTF-8 self-synchronisation, not proved here): an ASCII byte in the encoding of a text is a whole
-/// character, so the offsets before and after it are char boundaries.
-#[verifier::external_body]
+/// one scalar value below 0x80 is encoded as that one byte
+proof fn lemma_scalar_ascii(c: u32)
+    requires c < 0x80,
+    ensures encode_scalar(c) =~= seq![c as u8],
+{
+    assert((c & 0x7f) == c) by(bit_vector) requires c < 0x80;
+}
+
+/// every byte of the encoding of a scalar value from 0x80 on is >= 0x80
+proof fn lemma_scalar_high(c: u32)
+    requires 0x80 <= c,
+    ensures encode_scalar(c).len() >= 2, forall|j: int| 0 <= j < encode_scalar(c).len() ==> (#[trigger] encode_scalar(c)[j]) >= 0x80,
+{
+    let l2 = leading_byte_width_2(c); let l3 = leading_byte_width_3(c); let l4 = leading_byte_width_4(c);
+    let c1 = last_continuation_byte(c); let c2 = second_last_continuation_byte(c); let c3 = third_last_continuation_byte(c);
+    assert(forall|y: u8| #![auto] (0xC0u8 | y) >= 0x80 && (0xE0u8 | y) >= 0x80 && (0xF0u8 | y) >= 0x80 && (0x80u8 | y) >= 0x80) by(bit_vector);
+    assert(l2 >= 0x80 && l3 >= 0x80 && l4 >= 0x80 && c1 >= 0x80 && c2 >= 0x80 && c3 >= 0x80);
+}
+
+/// UTF-8 self-synchronisation, PROVED from vstd's definition of the encoding: an ASCII byte of a text's encoding is a
+/// whole character of the text, at a character offset
+proof fn lemma_ascii_byte_char(cs: Seq<char>, i: int)
+    requires 0 <= i < encode_utf8(cs).len(), encode_utf8(cs)[i] < 0x80,
+    ensures exists|k: int| 0 <= k < cs.len() && #[trigger] char_off(cs, k) == i && char_off(cs, k + 1) == i + 1 && cs[k] as u32 == encode_utf8(cs)[i] as u32,
+    decreases cs.len(),
+{
+    if cs.len() == 0 {
+        reveal_with_fuel(encode_utf8, 1);
+        assert(encode_utf8(cs).len() == 0);
+    } else {
+        let init = cs.drop_last();
+        let c = cs.last();
+        assert(cs =~= init.push(c));
+        encode_utf8_push(init, c);
+        let es = encode_scalar(c as u32);
+        assert(encode_utf8(cs) =~= encode_utf8(init) + es);
+        let n = encode_utf8(init).len() as int;
+        if i < n {
+            lemma_ascii_byte_char(init, i);
+            let k = choose|k: int| 0 <= k < init.len() && #[trigger] char_off(init, k) == i && char_off(init, k + 1) == i + 1 && init[k] as u32 == encode_utf8(init)[i] as u32;
+            assert(cs.take(k) =~= init.take(k));
+            assert(cs.take(k + 1) =~= init.take(k + 1));
+            assert(char_off(cs, k) == i && char_off(cs, k + 1) == i + 1);
+            assert(cs[k] == init[k]);
+        } else {
+            let j = i - n;
+            assert(es[j] == encode_utf8(cs)[i]);
+            if c as u32 >= 0x80 { lemma_scalar_high(c as u32); assert(es[j] >= 0x80); }
+            lemma_scalar_ascii(c as u32);
+            assert(j == 0);
+            let k = cs.len() - 1;
+            assert(cs.take(k) =~= init);
+            assert(cs.take(k + 1) =~= cs);
+            assert(char_off(cs, k) == i && char_off(cs, k + 1) == i + 1);
+        }
+    }
+}
+
+/// (historically an assumed axiom; now a consequence of lemma_ascii_byte_char)
 proof fn axiom_ascii_byte_is_a_char(cs: Seq<char>, i: int)
     requires 0 <= i < encode_utf8(cs).len(), encode_utf8(cs)[i] < 0x80,
     ensures boundary(cs, i), boundary(cs, i + 1),
         char_index(cs, i + 1) == char_index(cs, i) + 1,
         0 <= char_index(cs, i) < cs.len(),
         cs[char_index(cs, i)] as u32 == encode_utf8(cs)[i] as u32,
-{}
+{
+    lemma_ascii_byte_char(cs, i);
+    let k = choose|k: int| 0 <= k < cs.len() && #[trigger] char_off(cs, k) == i && char_off(cs, k + 1) == i + 1 && cs[k] as u32 == encode_utf8(cs)[i] as u32;
+    lemma_char_index_of_off(cs, k);
+    lemma_char_index_of_off(cs, k + 1);
+}
 
 proof fn lemma_increasing(s: Seq<usize>, a: int, c: int)
     requires forall|j: int| 1 <= j < s.len() ==> s[j - 1] < #[trigger] s[j], 0 <= a <= c < s.len(),
